@@ -1275,3 +1275,11 @@ impl HalfConnection {
         }
     }
 }
+
+#[cfg(uflow_verif)]
+impl HalfConnection {
+    /// Bytes actually held for received packet data (not the receiver's own allocation counter)
+    pub fn verif_rx_held_bytes(&self) -> usize {
+        self.packet_receiver.verif_held_bytes()
+    }
+}
